@@ -25,7 +25,7 @@ import (
 	"github.com/dolthub/dolt/go/zzverif/vh"
 )
 
-const c03TraceRule = "a rapid-drawn script of put(size in 1..70000)/commit/close+reopen steps (journal writer buffer 8 KiB, 256 KiB or 5 MiB) is executed by a worker process under strace -f (openat, close, pwrite64, write, fsync, fdatasync, ftruncate, rename*, unlink*); at the start of every ACK write the trace must show max end offset of completed journal pwrite64s == the value it had when the last completed journal fsync started, and >= the journal size the worker reports. Non-trivial: a trace with >= 2 acks; distinct by script."
+const c03TraceRule = "a rapid-drawn script of put(size in 1..70000)/commit/close+reopen steps (journal writer buffer 8 KiB, 256 KiB or 5 MiB) is executed by a worker process under strace -f (openat, close, pwrite64, write, fsync, fdatasync, ftruncate, rename*, unlink*); steps include a revert (commit the previous root again: a root record without any chunk record); at the start of every ACK write the trace must show max end offset of completed journal pwrite64s == the value it had when the last completed journal fsync started, and >= both the on-disk journal size and the logical journal end (file + writer buffer) the worker reports. Non-trivial: a trace with >= 2 acks; distinct by script."
 
 var (
 	c03ReResumed = regexp.MustCompile(`^(\d+)\s+<\.\.\. (\w+) resumed>(.*)$`)
@@ -169,8 +169,17 @@ func c03CheckTrace(path string) (res c03TraceResult, err error) {
 					}
 					js, _ = strconv.ParseInt(d[:k], 10, 64)
 				}
-				if synced != maxWritten || js > synced {
-					res.unsyncedAtAcks = append(res.unsyncedAtAcks, fmt.Sprintf("ack #%d (trace line %d, journal size reported %d): journal bytes written so far %d, covered by a completed fsync %d", res.acks, lineNo, js, maxWritten, synced))
+				jl := int64(-1)
+				if i := strings.Index(args, "jlogical="); i >= 0 {
+					d := args[i+9:]
+					k := 0
+					for k < len(d) && d[k] >= '0' && d[k] <= '9' {
+						k++
+					}
+					jl, _ = strconv.ParseInt(d[:k], 10, 64)
+				}
+				if synced != maxWritten || js > synced || jl > synced {
+					res.unsyncedAtAcks = append(res.unsyncedAtAcks, fmt.Sprintf("ack #%d (trace line %d; journal size on disk %d, logical end of the journal incl. the writer's buffer %d): journal bytes written so far %d, covered by a completed fsync %d", res.acks, lineNo, js, jl, maxWritten, synced))
 				}
 			}
 		}
@@ -205,10 +214,20 @@ func c03TraceCase(rt *rapid.T, rec *vh.Recorder, base, strace string) {
 			}
 			script = append(script, fmt.Sprintf("put %d", sz))
 			pending++
-		case k < 9:
+		case k < 8:
 			script = append(script, "commit")
 			commits++
 			pending = 0
+		case k < 9:
+			if commits >= 2 && pending == 0 {
+				// back to the previous root: a commit that writes no chunk record
+				script = append(script, "revert")
+				commits++
+			} else {
+				script = append(script, "commit")
+				commits++
+				pending = 0
+			}
 		default:
 			script = append(script, "close", "open 0 1")
 			pending = 0
@@ -216,6 +235,10 @@ func c03TraceCase(rt *rapid.T, rec *vh.Recorder, base, strace string) {
 	}
 	for commits < 2 {
 		script = append(script, "put 100", "commit")
+		commits++
+	}
+	if rapid.Bool().Draw(rt, "finalRevert") {
+		script = append(script, "revert")
 		commits++
 	}
 	script = append(script, "close", "exit")
